@@ -7,6 +7,8 @@ package world
 import (
 	"bytes"
 	"context"
+	"crypto/sha256"
+	"encoding/hex"
 	"encoding/json"
 	"errors"
 	"fmt"
@@ -74,6 +76,7 @@ type Cfg struct {
 	Localizer        string   // "" none | "empty": a catalogue without any entry (answers "" for every key, as the interface prescribes for missing keys) | "partial": entries for about half of the keys
 	decoy            bool     // this World is the second instance created next to another one
 	PreserveFields   []string // Modules.RegisterPreserveFields
+	CustomHasher     bool     // Config.Core.Hasher is the application's own salted-SHA hasher (own error values), not the shipped bcrypt one
 	PersistArbitrary bool     // the user type stores every key PutArbitrary hands it (only sensible with an explicit RegWhitelist)
 }
 
@@ -346,6 +349,9 @@ func New(cfg Cfg, salt string) (w *World, err error) {
 	ab.Config.Core.BodyReader = bodyReader{br}
 	ab.Config.Core.Mailer = mailer{w}
 	ab.Config.Core.Hasher = hasher{w: w, inner: authboss.NewBCryptHasher(4)}
+	if cfg.CustomHasher {
+		ab.Config.Core.Hasher = hasher{w: w, inner: saltedSHA{}}
+	}
 
 	if len(cfg.Providers) > 0 {
 		ab.Config.Modules.OAuth2Providers = map[string]authboss.OAuth2Provider{}
@@ -1025,3 +1031,44 @@ func (c catalogue) Localizef(ctx context.Context, key authboss.LocalizationKey, 
 // ResetClock points the process-wide virtual clock back at w's own instant (another World created in
 // the meantime has set it to its own).
 func ResetClock(w *World) { verifclock.Set(w.now) }
+
+// saltedSHA is an application-supplied authboss.Hasher (the interface exists so that deployments can
+// plug in argon2, scrypt or a legacy scheme): salted SHA-256, its own error values.
+type saltedSHA struct{}
+
+var errSSHAMismatch = errors.New("ssha: password does not match")
+
+func (saltedSHA) GenerateHash(pw string) (string, error) {
+	salt := sha256.Sum256([]byte("salt-of:" + pw))
+	sum := sha256.Sum256(append(salt[:8], pw...))
+	return fmt.Sprintf("ssha$%x$%x", salt[:8], sum), nil
+}
+
+func (saltedSHA) CompareHashAndPassword(hash, pw string) error {
+	parts := strings.Split(hash, "$")
+	if len(parts) != 3 || parts[0] != "ssha" {
+		return errors.New("ssha: malformed hash")
+	}
+	salt, err := hex.DecodeString(parts[1])
+	if err != nil {
+		return errors.New("ssha: malformed salt")
+	}
+	sum := sha256.Sum256(append(salt, pw...))
+	if fmt.Sprintf("%x", sum) != parts[2] {
+		return errSSHAMismatch
+	}
+	return nil
+}
+
+// HashPw hashes a password the way this world's configured hasher does (seeding only).
+func (w *World) HashPw(pw string) string {
+	if w.Cfg.CustomHasher {
+		h, _ := saltedSHA{}.GenerateHash(pw)
+		return h
+	}
+	h, err := authboss.NewBCryptHasher(4).GenerateHash(pw)
+	if err != nil {
+		panic(err)
+	}
+	return h
+}
